@@ -149,8 +149,9 @@ def breakAtRight (trimEnd : Bool) (input : List Char) (index indexMinusWs : Nat)
     if trimEnd then .lineEnd (input.take (indexMinusWs + 1)) (indexPlusWs + 1)
     else .lineEnd (input.take (indexPlusWs + 1)) (indexPlusWs + 1)
   | .exhausted =>
-    -- `only_whitespaces_follow`: with `trim_end = false` the rest is significant and stays here
-    if trimEnd then .lineEnd (input.take (indexMinusWs + 1)) (index + 1)
+    -- `only_whitespaces_follow`: nothing is left for a next line; with `trim_end = false` the rest is
+    -- significant and stays here, with `trim_end` it is dropped
+    if trimEnd then .endOfInput (input.take (indexMinusWs + 1))
     else .endOfInput input
 
 /-- The closure `break_at` (string.rs:225-274); `input[index]` is included in the line. -/
